@@ -110,8 +110,10 @@ struct WebSocketFrame
       frame.maskKey[3] = data[pos++];
     }
 
-    // Payload
-    if (data.size() < pos + payloadLen)
+    // Payload. Compare against the bytes that are left (pos <= data.size() holds
+    // here): `pos + payloadLen` wraps around for declared lengths near 2^64, which
+    // made a 10-byte header look complete and sent resize() into length_error.
+    if (payloadLen > data.size() - pos)
     {
       return std::nullopt; // incomplete
     }
